@@ -153,7 +153,7 @@ procrustesRotationAndTranslation(const FixedArray<IMATH_NAMESPACE::Vec3<T> >& fr
     if (weights)
     {
         weights->match_dimension(from);
-        flatten(*weights, weightsHandle);
+        weightsPtr = flatten(*weights, weightsHandle);
     }
 
     if (weightsPtr)
